@@ -18,7 +18,7 @@
    Theorem [flow_typed]: every value that can be at a site has the static type of that site;
    [flow_sites_safe]: hence every type assertion the framework makes (state pre handler
    entry, node entry, state post handler entry, branch condition, final output) holds. *)
-From Eino Require Import Base.Util Model.Types Model.TypeBuilder Proofs.TypesLattice Proofs.TypesBuilder Proofs.TypesRun Proofs.TypesInv2 Proofs.TypesMay.
+From Eino Require Import Base.Util Model.Types Model.TypeBuilder Proofs.TypesLattice Proofs.TypesBuilder Proofs.TypesRun Proofs.TypesInv2 Proofs.TypesMay Proofs.TypesMain.
 From Coq Require Import Lia.
 Arguments check_assignable : simpl never.
 
@@ -191,4 +191,157 @@ Section F.
       + inversion P; subst d1. destruct (n_pre_ret n) as [r|] eqn:Rr; [|apply F_pre_same; exact F0].
         destruct (HR k n G Ps) as [H1 _]. eapply F_pre_lambda; eauto.
   Qed.
+
+  Lemma post_flow : forall st k d1 d2,
+    all_typed st -> nodes_ok st -> emit_ok u emit st -> hret_ok u st ->
+    flow st SBody k d1 ->
+    post_res asrt st k (node_out asrt emit st (k, d1)) = Some (TVal d2) ->
+    flow st SDone k d2.
+  Proof.
+    intros st k d1 d2 AT NO EM HR F0 P.
+    unfold node_out in P. simpl in P. destruct (get_node st k) as [n|] eqn:G; [|discriminate].
+    assert (OUT : exists o, (if n_pass n then Some d1
+                             else match n_in n with
+                                  | Some ty0 => if asrt d1 ty0 then Some (emit_of emit st k) else None
+                                  | None => None end) = Some o /\ flow st SOut k o).
+    { destruct (n_pass n) eqn:Ps.
+      - exists d1. split; [reflexivity | eapply F_body_pass; eauto].
+      - destruct (n_in n) as [ty0|]; [|discriminate].
+        destruct (asrt d1 ty0); [|discriminate].
+        exists (emit_of emit st k). split; [reflexivity|].
+        destruct (NO k n G) as [[_ [Pl _]] _]. destruct (Pl Ps) as [i [o [_ Ho]]].
+        eapply F_body_lambda; eauto. }
+    destruct OUT as [o [E FO]]. rewrite E in P. unfold post_res in P. rewrite G in P.
+    unfold run_handler in P. destruct (n_post n) as [t0|] eqn:Pn.
+    2:{ inversion P; subst d2. apply F_post_same; exact FO. }
+    destruct (asrt o t0); simpl in P; [|discriminate].
+    destruct (n_pass n) eqn:Ps.
+    - destruct (n_out n) as [tc|] eqn:No.
+      + destruct (asrt (match n_post_ret n with Some r => r | None => o end) tc) eqn:A; [|discriminate].
+        inversion P; subst d2. eapply F_post_pass; eauto.
+      + destruct (AT k n G) as [t Ht]. destruct (NO k n G) as [[Pp _] _]. rewrite (Pp Ps) in Ht. congruence.
+    - inversion P; subst d2. destruct (n_post_ret n) as [r|] eqn:Rr; [|apply F_post_same; exact FO].
+      destruct (HR k n G Ps) as [_ H2]. eapply F_post_lambda; eauto.
+  Qed.
+
+  Lemma collect_flow : forall st tasks1 done,
+    all_typed st -> nodes_ok st -> emit_ok u emit st -> hret_ok u st ->
+    (forall x, In x tasks1 -> flow st SBody (fst x) (snd x)) ->
+    collect_outs tasks1 (map (fun t => post_res asrt st (fst t) (node_out asrt emit st t)) tasks1) = inr done ->
+    forall y, In y done -> flow st SDone (fst y) (snd y).
+  Proof.
+    intros st tasks1. induction tasks1 as [|[k d1] rest IH]; intros done AT NO EM HR HF H; simpl in H.
+    - inversion H; subst. intros y [].
+    - destruct (post_res asrt st k (node_out asrt emit st (k, d1))) as [[d2| |]|] eqn:P; try discriminate.
+      destruct (collect_outs rest _) as [o|l] eqn:R; [discriminate|]. inversion H; subst done; clear H.
+      intros y [Hy|Hy].
+      + subst y. simpl. eapply post_flow; eauto. apply (HF (k, d1)). left; reflexivity.
+      + eapply IH; eauto. intros x Hx. apply HF. right; exact Hx.
+  Qed.
+
+  Lemma exec_all_flow : forall st tasks done,
+    all_typed st -> nodes_ok st -> emit_ok u emit st -> hret_ok u st ->
+    (forall x, In x tasks -> flow st SArr (fst x) (snd x)) ->
+    exec_all asrt emit st tasks = inr done ->
+    forall y, In y done -> flow st SDone (fst y) (snd y).
+  Proof.
+    intros st tasks done AT NO EM HR HF H. unfold exec_all in H.
+    destruct (forallb (fun t => has_node st (fst t)) tasks); simpl in H; [|discriminate].
+    destruct (pre_all asrt st tasks) as [o|tasks1] eqn:P; [discriminate|].
+    destruct (forallb _ _) in H; simpl in H; [|discriminate].
+    eapply collect_flow; eauto. eapply pre_all_flow; eauto.
+  Qed.
+
+  Lemma next_flow : forall st done tasks,
+    inv u st -> g_compiled st = true ->
+    (forall x, In x done -> flow st SDone (fst x) (snd x)) ->
+    next u asrt st done = inr tasks ->
+    forall x, In x tasks -> flow st SArr (fst x) (snd x).
+  Proof.
+    intros st done tasks I C HF H x Hx. unfold next in H.
+    assert (HD : forall x, In x done -> done_ok u st x).
+    { intros [s d] Hs. exact (flow_typed_inv st I C _ _ _ (HF _ Hs)). }
+    pose proof (resolve_safe u st done I HD) as RS.
+    destruct (resolve asrt st done) as [o|ws] eqn:R; [discriminate|].
+    destruct (resolve_inr u st done ws R) as [RA RB].
+    destruct (edges_ok asrt st ws) eqn:EO; simpl in H; [|discriminate].
+    destruct (fan_in ws); [discriminate|].
+    destruct (memN kEND (targets ws)).
+    { destruct (value_for kEND ws); [discriminate|].
+      match type of H with (if ?c then _ else _) = _ => destruct c; discriminate end. }
+    inversion H; subst tasks; clear H.
+    apply in_map_iff in Hx. destruct Hx as [t [E Ht]]. subst x. simpl.
+    destruct (value_for_In t ws Ht) as [s Hw].
+    destruct (RS _ _ _ Hw) as [Hc _]. destruct (RB _ _ _ Hw) as [Hd _].
+    pose proof (HF _ Hd) as FD. simpl in FD.
+    unfold edges_ok in EO. rewrite forallb_forall in EO. pose proof (EO _ Hw) as CV. simpl in CV.
+    unfold conns in Hc. apply in_app_or in Hc. destruct Hc as [Hc|Hc].
+    - eapply F_edge; eauto.
+    - unfold branch_pairs in Hc. apply in_flat_map in Hc. destruct Hc as [[s0 b] [Hb Hp]]. simpl in Hp.
+      apply in_map_iff in Hp. destruct Hp as [t0 [E Ht0]]. inversion E; subst s0 t0.
+      destruct (RA _ _ Hd) as [BA _].
+      assert (Bb : In b (branches_of st s)).
+      { unfold branches_of. apply in_map_iff. exists (s, b). split; [reflexivity|].
+        apply filter_In. split; [exact Hb | simpl; apply N.eqb_refl]. }
+      destruct (BA b Bb) as [CB _].
+      eapply F_branch; eauto.
+  Qed.
+
+  Lemma loop_flows : forall st steps tasks,
+    inv u st -> g_compiled st = true -> emit_ok u emit st -> hret_ok u st ->
+    (forall x, In x tasks -> flow st SArr (fst x) (snd x)) ->
+    (forall ts, In ts (loop_tasks u emit st steps tasks) -> forall x, In x ts -> flow st SArr (fst x) (snd x)) /\
+    (forall ds, In ds (loop_dones u emit st steps tasks) -> forall x, In x ds -> flow st SDone (fst x) (snd x)).
+  Proof.
+    intros st steps. induction steps as [|n IH]; intros tasks I C EM HR HF; simpl.
+    - split; intros ? [].
+    - destruct tasks as [|x0 rest] eqn:T; [split; intros ? []|]. rewrite <- T in *.
+      destruct (inv_compiled _ _ I C) as [_ AT]. pose proof (inv_nodes _ _ I) as NO.
+      destruct (exec_all asrt emit st tasks) as [o|done] eqn:E.
+      + split; [|intros ? []]. intros ts [Hts|[]]. subst ts. exact HF.
+      + pose proof (exec_all_flow st tasks done AT NO EM HR HF E) as FD.
+        destruct (next u asrt st done) as [o|tasks'] eqn:N.
+        * split.
+          -- intros ts [Hts|[]]. subst ts. exact HF.
+          -- intros ds [Hds|[]]. subst ds. exact FD.
+        * pose proof (next_flow st done tasks' I C FD N) as FT.
+          destruct (IH tasks' I C EM HR FT) as [A B]. split.
+          -- intros ts [Hts|Hts]; [subst ts; exact HF | apply A; exact Hts].
+          -- intros ds [Hds|Hds]; [subst ds; exact FD | apply B; exact Hds].
+  Qed.
+
+  (* Invoke on a Pregel graph is one of the executions [flow] speaks about *)
+  Theorem run_flows_inv : forall st input,
+    inv u st -> g_compiled st = true -> emit_ok u emit st -> hret_ok u st ->
+    has_type u input (g_in st) = true ->
+    (forall ts, In ts (run_tasks u emit st input) -> forall x, In x ts -> flow st SArr (fst x) (snd x)) /\
+    (forall ds, In ds (run_dones u emit st input) -> forall x, In x ds -> flow st SDone (fst x) (snd x)).
+  Proof.
+    intros st input I C EM HR HI. unfold run_tasks, run_dones.
+    assert (F0 : forall x, In x [(kSTART, input)] -> flow st SDone (fst x) (snd x)).
+    { intros x [Hx|[]]. subst x. simpl. apply F_start; exact HI. }
+    destruct (next u asrt st [(kSTART, input)]) as [o|tasks] eqn:N.
+    - split; [intros ? []|]. intros ds [Hds|[]]. subst ds. exact F0.
+    - pose proof (next_flow st _ tasks I C F0 N) as FT.
+      destruct (loop_flows st (max_steps st) tasks I C EM HR FT) as [A B]. split; [exact A|].
+      intros ds [Hds|Hds]; [subst ds; exact F0 | apply B; exact Hds].
+  Qed.
 End F.
+
+(* ------------------------------------------------------------------ over construction sequences *)
+
+Theorem flow_typed_main : forall u orcs i o s ops st oks,
+  run_ops u orcs 0 (init_graph i o s) ops = (st, oks) -> g_compiled st = true ->
+  forall si k d, flow u st si k d -> site_typed u st si k d.
+Proof. intros. eapply flow_typed_inv; eauto. eapply reach_inv; eauto. Qed.
+
+Theorem flow_sites_safe_main : forall u orcs i o s ops st oks,
+  run_ops u orcs 0 (init_graph i o s) ops = (st, oks) -> g_compiled st = true -> sites_safe u st.
+Proof. intros. eapply flow_sites_safe_inv; eauto. eapply reach_inv; eauto. Qed.
+
+Theorem run_flows_main : forall u orcs i o s ops st oks emit input,
+  run_ops u orcs 0 (init_graph i o s) ops = (st, oks) -> g_compiled st = true ->
+  emit_ok u emit st -> hret_ok u st -> has_type u input (g_in st) = true ->
+  (forall ts, In ts (run_tasks u emit st input) -> forall x, In x ts -> flow u st SArr (fst x) (snd x)) /\
+  (forall ds, In ds (run_dones u emit st input) -> forall x, In x ds -> flow u st SDone (fst x) (snd x)).
+Proof. intros. eapply run_flows_inv; eauto. eapply reach_inv; eauto. Qed.
